@@ -361,6 +361,20 @@ func (vc *VC) emitVariant(o *Obl, dir string, idx int, variant int) (string, int
 						continue
 					}
 					seen[key] = true
+					if pcs := vc.assumedAt[it.q.Text]; len(pcs) > 0 && it.depth == 0 {
+						// assumed on some path: the instance holds under that path's condition
+						emitted := false
+						for _, pcn := range pcs {
+							if pathSyms[pcn] {
+								fmt.Fprintf(&b, "(assert (=> %s %s))\n", pcn, inst)
+								n++
+								emitted = true
+							}
+						}
+						if emitted {
+							goto nested
+						}
+					}
 					if len(it.q.Text) < 3000 {
 						// small quantifier: the instance is stated directly under it (faster for the solvers than an indirection)
 						fmt.Fprintf(&b, "(assert (=> %s %s))\n", it.q.Text, inst)
